@@ -51,11 +51,17 @@ HasRx(sc) ==
     \E ti \in 1..Len(sc.rules[ri].links[li].targets) :
       LET tg == sc.rules[ri].links[li].targets[ti] IN
       tg.sel.t = "rx" \/ \E ei \in 1..Len(tg.excl) : tg.excl[ei].t = "rx"
+\* ... or in a run-time target exclusion carried by a ctl action
+HasCtlRx(sc) ==
+  \E ri \in 1..Len(sc.rules) : \E li \in 1..Len(sc.rules[ri].links) :
+    \E ai \in 1..Len(sc.rules[ri].links[li].acts) :
+      LET a == sc.rules[ri].links[li].acts[ai] IN
+      a.a = "ctl" /\ a.s \in {"ruleRemoveTargetById", "ruleRemoveTargetByTag", "ruleRemoveTargetByMsg"} /\ a.k[1].sel.t = "rx"
 
 Init ==
   /\ pick \in Picks
   /\ scen = ScenOf(pick)
-  /\ rxMode \in (IF HasRx(scen) THEN {[args |-> ma, other |-> mo] : ma \in RxModes, mo \in {"orig", "fold"}} ELSE {RxMode("orig")})
+  /\ rxMode \in (IF HasRx(scen) \/ HasCtlRx(scen) THEN {[args |-> ma, other |-> mo] : ma \in RxModes, mo \in {"orig", "fold"}} ELSE {RxMode("orig")})
   /\ st = [InitState(scen.engine) EXCEPT !.cacheOn = CacheOn, !.cacheKeyDesign = CacheDesign]
   /\ p = 1
   /\ i = 1
